@@ -20,6 +20,9 @@ ASSUMPTIONS = [
 ]
 
 
+POLICIES = ("thread", "fifo")
+
+
 def parse_res(text):
     out = {}
     if text:
@@ -85,6 +88,11 @@ def project_list(tier):
             out.append((f"hold:n{nesting}f{fail}s{sub}j{nj}",
                         ("f_hold", {"nesting": nesting, "fail": fail, "sub": sub}),
                         {"njob": nj, "resources": None}, None))
+    # a resource holder that is detached while it runs (its creator fails or is re-executed)
+    for kind in ("fail", "defer"):
+        for nj in (3, 4):
+            out.append((f"resdet:{kind}j{nj}", ("f_resdetached", {"kind": kind}),
+                        {"njob": nj, "resources": "gpu:1", "keep_going": True}, None))
     # a held step with a stored hash: first build v=1 without hold semantics mattering,
     # then the plan changes (v=2) and reruns with the same step definitions under hold
     for nj in (2, 3):
@@ -111,7 +119,10 @@ def _run(spec, prefix):
 def jobs(tier, seed):
     out = []
     bound = 1 if tier == "quick" else 2
-    for name, proj, cfg, first in project_list(tier):
+    for (name, proj, cfg, first), policy in itertools.product(project_list(tier), POLICIES):
+        # two base schedules: non-preemptive and oldest-event-first (maximal overlap)
+        name = f"{name}/{policy}"
+        cfg = {**cfg, "policy": policy}
         spec = {"name": name, "proj": proj, "cfg": cfg, "first": first, "bound": bound}
         if tier == "quick":
             out.append({**spec, "root": [], "only_root": False})
